@@ -19,11 +19,12 @@ EXTENDS XzStreamEnc
 VARIABLES d, m
 mvars == <<d, m>>
 
-MInit ==
-    /\ d = [phase |-> CASE cfg.enc \in {"stream", "mt"} -> "start" [] cfg.enc = "block" -> "inblock" [] OTHER -> "raw",
-            needDict |-> TRUE, needProps |-> TRUE, props |-> "nil", sync |-> FALSE,
-            bad |-> FALSE, decodable |-> 0, dblocks |-> <<>>, dsum |-> 0]
-    /\ m = [ended |-> FALSE, fatal |-> FALSE, wantChain |-> cfg.chain0, wantProps |-> cfg.chain0.props]
+D0(config) == [phase |-> CASE config.enc \in {"stream", "mt"} -> "start" [] config.enc = "block" -> "inblock" [] OTHER -> "raw",
+               needDict |-> TRUE, needProps |-> TRUE, props |-> "nil", sync |-> FALSE,
+               bad |-> FALSE, decodable |-> 0, dblocks |-> <<>>, dsum |-> 0]
+M0(config) == [ended |-> FALSE, fatal |-> FALSE, wantChain |-> config.chain0, wantProps |-> config.chain0.props]
+MInit == d = D0(cfg) /\ m = M0(cfg)
+MResetTo(config) == d' = D0(config) /\ m' = M0(config)
 
 Bad(x) == [x EXCEPT !.bad = TRUE]
 
